@@ -16,7 +16,8 @@ Inductive rid := RId (n : nat) | RForeign (a : N).
 Inductive pname :=
 | PDoc | PStyles | PCT | PRels | PDocRels
 | PMedia (id : Z) (e : ext)        (* word/media/image<id>.<ext>: a name Sscanf("image%d.") reads as id *)
-| PHeader (k : hfkind) | PFooter (k : hfkind)
+| PHeader (k : hfkind) | PFooter (k : hfkind)   (* the names the library gives: header1.xml, headerfirst.xml, headereven.xml *)
+| PHeaderN (n : nat) | PFooterN (n : nat)        (* header<n>.xml, footer<n>.xml for n >= 2 *)
 | PNumbering | PFootnotes | PEndnotes | PSettings | PCore | PApp
 | PForeign (a : N) (e : ext).      (* any other part, e.g. theme, fonts, custom xml, oddly named media *)
 
@@ -52,6 +53,7 @@ Definition pname_eqb (a b : pname) : bool :=
   | PSettings, PSettings | PCore, PCore | PApp, PApp => true
   | PMedia i e, PMedia j f => Z.eqb i j && ext_eqb e f
   | PHeader k, PHeader l | PFooter k, PFooter l => hf_eqb k l
+  | PHeaderN n, PHeaderN m | PFooterN n, PFooterN m => Nat.eqb n m
   | PForeign x e, PForeign y f => N.eqb x y && ext_eqb e f
   | _, _ => false
   end.
@@ -124,6 +126,28 @@ Definition styles_id (k : pkg) : rid :=
   | None => if mem_rid (RId 1) (ids k) then first_unused (ids k) (length (drels k) + 2) (length (drels k) + 1) else RId 1
   end.
 
+(* headerFooterFileName: a new header/footer part takes the name the library uses for its kind - unless a part of that
+   name exists and a reference of ANOTHER kind uses it (an opened document may call its first-page header header1.xml,
+   or use one part for two kinds): then the first header<n>.xml, n >= 2, that no part has *)
+Definition hfn_ids (footer : bool) (k : pkg) : list rid :=
+  flat_map (fun q => match fst q with
+                     | PHeaderN n => if footer then [] else [RId n]
+                     | PFooterN n => if footer then [RId n] else []
+                     | _ => []
+                     end) (parts k).
+Definition hf_fresh_name (footer : bool) (k : pkg) : pname :=
+  match first_unused (hfn_ids footer k) 2 (length (hfn_ids footer k)) with
+  | RId m => if footer then PFooterN m else PHeaderN m
+  | RForeign _ => if footer then PFooterN 0 else PHeaderN 0
+  end.
+Definition used_by_other_kind (footer : bool) (kd : hfkind) (p : pname) (k : pkg) : bool :=
+  existsb (fun r => negb (hf_eqb (fst r) kd) &&
+                    existsb (fun rl => rid_eqb (r_id rl) (snd r) && target_eqb (r_target rl) (TPart p)) (drels k))
+          (if footer then frefs k else hrefs k).
+Definition hf_part (footer : bool) (kd : hfkind) (k : pkg) : pname :=
+  let p0 := if footer then PFooter kd else PHeader kd in
+  if has_part p0 k && used_by_other_kind footer kd p0 k then hf_fresh_name footer k else p0.
+
 Definition add_default (e : ext) (l : list ext) : list ext :=
   if existsb (ext_eqb e) l then l else l ++ [e].
 Definition add_override (p : pname) (l : list pname) : list pname :=
@@ -181,7 +205,7 @@ Definition step (k : pkg) (o : op) : option pkg :=
       match fresh k with
       | None => None
       | Some i =>
-          let p := if footer then PFooter kd else PHeader kd in
+          let p := hf_part footer kd k in
           Some (mkPkg (drels k ++ [mkRel i (if footer then KFooter else KHeader) (TPart p)]) (sid k)
                       (set_part p payload (parts k)) (defaults k) (add_override p (overrides k)) (nimg k)
                       (if footer then hrefs k else set_ref kd i (hrefs k))
